@@ -157,10 +157,16 @@ def gen_case(rng, i):
         "dryrun": rng.choice(["absent", "true", "false", "false", "false"]),
         "envloc": rng.choice([".", ".."]),
         "packed": rng.random() < 0.2,
+        # the tool's environment prefix: a variable that is present but empty (an undefined CI input) or says "true" never asks for a real run
+        "procenv": rng.choice([None, None, None, {"MOCKERYTOOLS_DRY_RUN": ""}, {"MOCKERYTOOLS_DRY_RUN": "true"}, {"MOCKERYTOOLS_DRY-RUN": ""}, {"MOCKERYTOOLS_VERSION": ""}]),
     }
 
 
 FIXED_CASES = [
+    {"i": -40, "ncommits": 2, "tags": [{"name": "v3.0.2", "annotated": True, "commit": 0}, {"name": "v3", "annotated": True, "commit": 0}], "version": "v3.0.3",
+     "dirty": "clean", "dryrun": "absent", "envloc": ".", "packed": False, "procenv": {"MOCKERYTOOLS_DRY_RUN": ""}},
+    {"i": -41, "ncommits": 2, "tags": [{"name": "v3.0.2", "annotated": False, "commit": 0}], "version": "v3.0.3",
+     "dirty": "clean", "dryrun": "absent", "envloc": "..", "packed": False, "procenv": {"MOCKERYTOOLS_DRY_RUN": "true", "MOCKERYTOOLS_VERSION": ""}},
     # the witness of the repaired dry-run defect (D19): default invocation must not tag
     {"i": -1, "ncommits": 2, "tags": [{"name": "v1.0.0", "annotated": True, "commit": 0}], "version": "v1.1.0",
      "dirty": "clean", "dryrun": "absent", "envloc": ".", "packed": False},
@@ -324,11 +330,12 @@ def eval_case(ctx, case):
     args = [tools, "tag"]
     if case["dryrun"] != "absent":
         args.append("--dry-run=%s" % case["dryrun"])
-    r = core.run(args, cwd=repo, env=core.base_env(GITENV), timeout=120, cpu_limit=60)
+    r = core.run(args, cwd=repo, env=core.base_env(dict(GITENV, **(case.get("procenv") or {}))), timeout=120, cpu_limit=60)
     if r.timed_out:
         return Verdict.inconclusive("watchdog")
     m = model(case)
-    tags = ["dryrun=" + case["dryrun"], "dirty=" + case["dirty"], "greater=%s" % m["greater"]] + (["packed-refs"] if case.get("packed") else [])
+    tags = ["dryrun=" + case["dryrun"], "dirty=" + case["dirty"], "greater=%s" % m["greater"]] + (["packed-refs"] if case.get("packed") else []) + (
+        ["env:" + ",".join("%s=%r" % kv for kv in sorted(case["procenv"].items()))] if case.get("procenv") else [])
     try:
         after = repo_state(repo)
     except RuntimeError as e:
